@@ -1796,7 +1796,7 @@ class DynDiGraph(nx.DiGraph):
         else:
             for it in self.interactions_iter():
                 for t in it[2]['t']:
-                    H.add_interaction(it[0], it[1], t=t[0], e=t[1])
+                    H.add_interaction(it[0], it[1], t=t[0], e=t[1] + 1)
 
         H.graph = deepcopy(self.graph)
         H._node = deepcopy(self._node)
